@@ -135,6 +135,8 @@ class AugmentFrame(Unit):
         g = Rec("Graph", dict(vertices=V, edges=E), module=BASE, frozen=True)
         env["ts_max"] = Arr.fresh("ts_max_all", REAL, z3.Int("num_episodes"))
         ex.assume(z3.Int("num_episodes") >= 1)
+        jh = z3.Int("j!h")
+        ex.assume(z3.ForAll([jh], z3.Select(env["ts_max"].a, jh) >= 0))     # the requested horizon is non-negative
         jnp = ex.lib.ns["jax.numpy"]
         orig_where = jnp.entries["where"]
         from pyvc import libmodels
@@ -167,7 +169,60 @@ class AugmentFrame(Unit):
                        hyps=None)
 
 
-UNITS = [NodeStep(), EdgeAssign(), AugmentFrame()]
+class VertexSpacing(Unit):
+    """scan-level statement, independent of the carry's shape: two consecutive applications of the real scan body on an arbitrary carry"""
+    name = "_generate_graphs.episode (vertex scan)"
+    target = ART + "::_generate_graphs.episode"
+    props = ("C12",)
+
+    def opts(self, cfg):
+        unit = self
+
+        def scan(ex, f, init, xs, length):
+            if isinstance(f, Partial) and getattr(f.f, "name", "") == "step":
+                name = f.args[0]
+                unit.seen = dict(name=name, init=init)
+                c0 = ex.havoc(init, "carry")
+                i0 = z3.Int("i0")
+                c1, v1 = ex.call(f, [c0, i0], {})
+                c2, v2 = ex.call(f, [c1, i0 + 1], {})
+                unit.seen.update(v1=v1, v2=v2, c0=c0)
+                # first application on the real initial carry
+                _, vfirst = ex.call(f, [init, z3.IntVal(0)], {})
+                unit.seen["vfirst"] = vfirst
+                raise Captured(None)
+            raise Unsupported("unexpected scan")
+        return {"scan": scan}
+
+    def run(self, ctx):
+        ex = ctx.ex
+        nodes, env, episode = capture_closures(ctx)
+        env["ts_max"] = Arr.fresh("ts_max_all", REAL, z3.Int("num_episodes"))
+        jh = z3.Int("j!h")
+        ex.assume(z3.And(z3.Int("num_episodes") >= 1, z3.ForAll([jh], z3.Select(env["ts_max"].a, jh) >= 0)))     # at least one episode, non-negative horizon
+        for nd in nodes.values():
+            ex.assume(nd.f["phase"] >= 0)       # node phases are non-negative (BaseNode.phase contract, C16)
+        g = Rec("Graph", dict(vertices={}, edges={}), module=BASE, frozen=True)
+        self.seen = {}
+        try:
+            ex.call(episode, [z3.Const("rng_eps", Leaf), g, z3.Real("ts_max_eps")], {})
+        except Captured:
+            pass
+        sn = self.seen
+        ctx.ensure("the vertex timestamps of a new node are generated by a scan over the step function", z3.BoolVal("v1" in sn))
+        if "v1" not in sn:
+            return
+        rate = nodes[sn["name"]].f["rate"]
+        v1, v2, vf = sn["v1"].f, sn["v2"].f, sn["vfirst"].f
+        ctx.ensure("C12 the first vertex of a node starts at its phase", toz(vf["ts_start"]) == nodes[sn["name"]].f["phase"])
+        ctx.ensure("C12 consecutive vertices of a node start at least one period apart, from every state the scan can carry", toz(v2["ts_start"]) >= toz(v1["ts_start"]) + 1 / rate)
+        ctx.ensure("C12 consecutive vertices never overlap: the next one starts no earlier than this one ends", toz(v2["ts_start"]) >= toz(v1["ts_end"]))
+        ctx.ensure("C12 every vertex lasts a non-negative (sampled) computation delay", z3.And(toz(v1["ts_end"]) >= toz(v1["ts_start"]), toz(v2["ts_end"]) >= toz(v2["ts_start"])))
+        ctx.ensure("C12 nothing valid ends after the horizon: seq = -1 iff ts_end > ts_max, else consecutive indices",
+                   z3.And(toz(v1["seq"]) == z3.If(toz(v1["ts_end"]) > z3.Real("ts_max_eps"), -1, z3.Int("i0")), toz(v2["seq"]) == z3.If(toz(v2["ts_end"]) > z3.Real("ts_max_eps"), -1, z3.Int("i0") + 1)))
+
+
+UNITS = [NodeStep(), VertexSpacing(), EdgeAssign(), AugmentFrame()]
 EXTRA = dict(assumptions=["jax.lax.scan / vmap fold and batch the verified bodies (assumed); acyclicity follows from time order (vertex after its predecessor, edge to a step starting at/after arrival): written argument",
                           "the scan carry of the edge assignment assumes arrivals in send order; with jittery communication delays a message can be overtaken and is then assigned one step late "
                           "(confirmed on the real code in the design phase; recorded in DESIGN 7 as an observation - the per-call obligations proved here are conditional on the carry)"])
